@@ -27,6 +27,9 @@ ASSUMPTIONS = ["1+z >= 1 and NaN-free finite redshifts", "H^2 positive, twice co
                "instances are built with object.__new__ and the constructor's own attribute assignments (the covariance files of this "
                "snapshot are empty and pandas>=3 rejects delim_whitespace, so __init__ cannot run)",
                "trapezoid error bound and sympy.integrate are tested, not proved"]
+# tables whose committed version may stand in as a hand-written model when the translator cannot read the source;
+# value = the correspondence that then ties it to the code (common.prove / common.decide)
+FALLBACK = {'Panth': 'real get_pred grid, mask, cumulative sums and mu vs the Lean model (bit patterns)'}
 MODELLED = ["likelihood.py:PanthLikelihood.get_pred", "likelihood.py:PanthLikelihood.clear_data",
             "likelihood.py:PanthLikelihood.run_sympify", "likelihood.py:PanthLikelihood.__init__"]
 
